@@ -12,7 +12,9 @@ The chain modelled: `line_to_cmds`, `parse_line`, the seven expansion passes of 
 Proved (`C01_partial`): every argument list in single or double quotes (any length, any characters the
 style can express, the empty string included), every environment (variables, aliases, `$HOME`, glob and
 command oracles), contexts *alone*, `; q`, `&& q`, `|| q`.
-Open: the escaped style (8 finding classes, refuted by witnesses below), the `| q` context.
+The escaped style and the `| q` context are in `Thm/C01esc.lean`: `C01_esc_partial` proves the statement for all three
+styles and all five contexts on exactly the complement of the 8 finding classes (`guardEsc_iff`); the classes themselves
+are refuted by the witnesses below.
 -/
 namespace Cicada.C01
 open Cicada Cicada.TokLemmas Cicada.PassLemmas Cicada.C03
